@@ -305,6 +305,8 @@ class Goebner:
             sign = ast.sign
             atom = ast.atom
             ret: Optional[list[Expr]]
+            if atom.ast_type == ASTType.Comparison and any(v.name == "_" for v in collect_ast(atom, "Variable")):
+                return None  # every anonymous variable is a different one, they can not share a symbol
             if atom.ast_type == ASTType.Comparison:
                 c = (atom.term, atom.guards[0].comparison, atom.guards[0].term)
                 rel = self._to_sympy_comparison(c, sign == Sign.Negation)
